@@ -1,10 +1,10 @@
 (* Layer R, the I/O thread (data steps): export_buffer and load_buffer against FileModel.export / load_enc / load_dec. *)
 From Coq Require Import ZArith NArith List String Bool Lia Arith.
-From Wencry Require Import Bytes FileModel ModesProofs FileProofsDec PipeConc PipeProps PipeLemmas PipeInv MiniC MiniCLemmas MiniCConc SrcRun.
+From Wencry Require Import Bytes FileModel ModesProofs FileProofsDec PipeConc PipeProps PipeLemmas PipeInv MiniC MiniCLemmas MiniCConc SrcRun SrcRun4.
 From Wencry Require RefineIobuffer.
-From Wencry Require Import RefineConcPipe RefineE2EfPipe RefineE2EfBlock.
-From Wencry Require Import RefineE2EfLay RefineE2EfMach RefineE2EfMem RefineE2EfTac RefineE2EfStepW RefineE2EfStepW2 RefineE2EfStepI RefineE2EfStepI2 RefineE2EfStepI3 RefineE2EfStepI4
-  RefineE2EfRel RefineE2EfRelW RefineE2EfRelI.
+From Wencry Require Import RefineConcPipe.
+From Wencry Require Import RefineConcSim RefineConcMem RefineConcMach RefineConcTac RefineConcStepW RefineConcStepW2 RefineConcStepI RefineConcStepI2 RefineConcStepI3 RefineConcStepI4
+  RefineConcTagBlock RefineConcRel RefineConcRelW RefineConcRelI.
 Import ListNotations.
 Local Open Scope list_scope.
 
@@ -27,25 +27,23 @@ Proof.
 Qed.
 
 Section RelIO.
-Context {LY : Layout} {LO : LayoutOk}.
 Variables (c T : nat) (pad : bool) (input0 : list N).
 Hypothesis Hc : (1 <= c)%nat.
 Hypothesis Hc32 : (16 * Z.of_nat c < 2 ^ 32)%Z.
 Hypothesis HT : (1 <= T <= 16)%nat.
 Hypothesis Hbytes : bytesb input0 = true.
+Hypothesis Hlen36 : (N.of_nat (List.length input0) < 2 ^ 36)%N.
 
 Notation drel := (drel c T pad input0).
 Notation tg_ok := (tg_ok T).
 Notation sim := (sim c T pad input0).
-Notation reach := (reach c T pad (skipn Lpos0 input0) LS Ltr Lev (Lsig0 T)).
+Notation reach := (reach c T pad input0).
 Notation cst := (cstate_md c T pad input0).
 Notation step := (pstep c pad).
 Notation sio := (step_io St c pad).
 Notation istep_goal := (istep_goal c T pad input0).
 
 (* ---- export ---- *)
-Lemma Forall_firstn_Z : forall (Q : Z -> Prop) n l, Forall Q l -> Forall Q (firstn n l).
-Proof. intros Q n. induction n as [|n IH]; intros [|x l] H; cbn [firstn]; try constructor; inversion H; subst; auto. Qed.
 Lemma export_rel : forall (b : buf) (mb : mbuf),
   mb_fin mb = b_final b -> List.length (mb_cells mb) = (16 * c)%nat -> Forall byteZ (mb_cells mb) ->
   mb_now mb = Z.of_nat (b_now b) -> b_now b = b_total b -> (b_total b <= c)%nat -> (1 <= b_total b)%nat ->
@@ -92,27 +90,27 @@ Proof.
   pose proof (drel_dwf c T pad input0 Hc Hc32 HT s d Hdr) as Hdw.
   pose proof Hdr as (Lb & Lw & Lx & Ldb & Ldn & Htu & HtT & Hov & Hlv & HlT & Hcr & Hout & Hbuf & Hws & Hin). pose proof Htg as (Lg & Hrb & Hbu & Hwl).
   rewrite Hio in Hbu. cbn [bu_ok] in Hbu.
-  destruct (reach_export c T pad (skipn Lpos0 input0) Hc (proj1 HT) (bskip Lpos0 input0 Hbytes) LS Ltr Lev LdS (Lsig0 T) (sig0_length T) s Hre Hio) as (Hupd & Hnt & Ht1 & Hnf).
-  assert (Hret : retired s (turn _ s) = false) by (unfold retired; rewrite Hupd, Hio; reflexivity).
+  destruct (reach_export c T pad input0 Hc (proj1 HT) Hbytes s Hre Hio) as (Hupd & Hnt & Ht1 & Hnf).
+  assert (Hret : retired s (turn _ s) = false) by (unfold retired, retiredb; rewrite Hupd, Hio; reflexivity).
   pose proof (Hbuf _ HtT) as Hbt. rewrite Hret in Hbt. pose proof Hbt as (Est & Efin & Elen & Eby & _).
   destruct (brel_not_retired c _ _ Hbt) as (Etot & Enow & Htc & Hnt' & Hld & H16 & Hrel).
   set (b := getb _ s (turn _ s)) in *. set (mb := nth (turn _ s) (d_bufs d) mb0) in *.
   destruct (export_rel b mb Efin Elen Eby Enow Hnt Htc Ht1 Hld H16 Hrel Hnf) as (bytes & Hex & Hby).
   assert (Hnc : (mb_now (nth (d_turn d) (d_bufs d) mb0) <= Z.of_nat c)%Z) by (rewrite Htu; fold mb; lia).
   destruct (M_io_export c T input0 pad (wpcs _ s) d g Hdw Lw Hbu Hnc) as (n & Hn & Hcs). rewrite <- Hio in Hcs. rewrite Htu in Hcs. fold mb in Hcs.
-  assert (Hn' : bnd n) by exact I.
+  assert (Hn' : (n <= 200)%nat) by lia.
   pose proof Hst as Hsio. unfold step_io in Hst. rewrite Hio in Hst. fold b in Hst. rewrite Hex in Hst. injection Hst as <- <-.
   apply (sim_io_pack c T pad input0 Hc HT Hbytes s d g _ _ n _ g I_Load (wpcs _ s) _ Hdr Htg Hre Hsio Hn' Hcs); try reflexivity.
   - rewrite nev_two by lia. unfold norm_ev. rewrite Hov. replace (Z.of_nat (turn _ s) <? 0)%Z with false by (symmetry; apply Z.ltb_ge; lia).
     rewrite Nat2Z.id, b2z_b2n. reflexivity.
-  - unfold RefineE2EfRel.drel. cbn [bufs wpcs wsts turn over live crashed output input with_out d_bufs d_sm d_turn d_over d_live d_out d_pos d_eof].
-    split; [exact Lb|]. split; [exact Lw|]. split; [exact Lx|]. split; [exact Ldb|]. split; [apply Forall_app; split; [exact Ldn|apply Forall_firstn_Z; exact Eby]|]. split; [exact Htu|].
+  - unfold RefineConcRel.drel. cbn [bufs wpcs wsts turn over live crashed output input with_out d_bufs d_ns d_turn d_over d_live d_out d_pos d_eof].
+    split; [exact Lb|]. split; [exact Lw|]. split; [exact Lx|]. split; [exact Ldb|]. split; [exact Ldn|]. split; [exact Htu|].
     split; [exact HtT|]. split; [exact Hov|]. split; [exact Hlv|]. split; [exact HlT|]. split; [exact Hcr|].
-    split; [rewrite Hout, concat_app, map_app; cbn [concat]; rewrite app_nil_r, Hby, app_assoc; reflexivity|].
+    split; [rewrite Hout, concat_app, map_app; cbn [concat]; rewrite app_nil_r, Hby; reflexivity|].
     split; [|split; [exact Hws|exact Hin]].
     intros j Hj. replace (retired _ j) with (retired s j); [apply Hbuf; exact Hj|].
-    unfold retired, getb. cbn [io turn bufs]. rewrite Hio. reflexivity.
-  - destruct Htg as (_ & _ & _ & Hw'). unfold RefineE2EfRel.tg_ok. cbn [io].
+    unfold retired, retiredb, getb. cbn [io turn bufs]. rewrite Hio. reflexivity.
+  - destruct Htg as (_ & _ & _ & Hw'). unfold RefineConcRel.tg_ok. cbn [io].
     split; [exact Lg|]. split; [exact Hrb|]. split; [rewrite Hbu; eexists _, _; reflexivity|]. exact Hw'.
 Qed.
 
@@ -120,12 +118,12 @@ Qed.
 End RelIO.
 
 Section RelIO2.
-Context {LY : Layout} {LO : LayoutOk}.
 Variables (c T : nat) (input0 : list N).
 Hypothesis Hc : (1 <= c)%nat.
 Hypothesis Hc32 : (16 * Z.of_nat c < 2 ^ 32)%Z.
 Hypothesis HT : (1 <= T <= 16)%nat.
 Hypothesis Hbytes : bytesb input0 = true.
+Hypothesis Hlen36 : (N.of_nat (List.length input0) < 2 ^ 36)%N.
 
 Notation drel pad := (drel c T pad input0).
 Notation tg_ok := (tg_ok T).
@@ -161,12 +159,12 @@ Definition after_load (s : pstate) (b' : buf) (ls : nat) (ov' : bool) (inp' : li
 Lemma drel_load : forall pad s d ls b' B' pos' eof' ov' inp',
   drel pad s d -> io _ s = I_Load ->
   brel c (retired (after_load s b' ls ov' inp') (turn _ s)) b' B' ->
-  (ov' = false -> eof' = false /\ True /\ inp' = loads_of c pad (skipn pos' input0)) ->
+  (ov' = false -> eof' = false /\ (pos' <= List.length input0)%nat /\ inp' = loads_of c pad (skipn pos' input0)) ->
   drel pad (after_load s b' ls ov' inp') (with_over (with_fin (dset d (turn _ s) B') pos' eof') ov').
 Proof.
   intros pad s d ls b' B' pos' eof' ov' inp' Hdr Hio Hb Hinp.
   pose proof Hdr as (Lb & Lw & Lx & Ldb & Ldn & Htu & HtT & Hov & Hlv & HlT & Hcr & Hout & Hbuf & Hws & Hin).
-  unfold RefineE2EfRel.drel. cbn [after_load bufs wpcs wsts turn over live crashed output input with_over with_fin dset with_bufs d_bufs d_sm d_turn d_over d_live d_out d_pos d_eof].
+  unfold RefineConcRel.drel. cbn [after_load bufs wpcs wsts turn over live crashed output input with_over with_fin dset with_bufs d_bufs d_ns d_turn d_over d_live d_out d_pos d_eof].
   rewrite !set_nth_length.
   split; [exact Lb|]. split; [exact Lw|]. split; [exact Lx|]. split; [exact Ldb|]. split; [exact Ldn|]. split; [exact Htu|].
   split; [exact HtT|]. split; [reflexivity|]. split; [exact Hlv|]. split; [exact HlT|]. split; [exact Hcr|]. split; [exact Hout|].
@@ -176,7 +174,7 @@ Proof.
   - rewrite !nth_set_nth_eq by lia. exact Hb.
   - rewrite !nth_set_nth_neq by exact N.
     replace (retired _ j) with (retired s j); [apply Hbuf; exact Hj|].
-    unfold retired, getb. cbn [after_load io turn bufs]. rewrite nth_set_nth_neq by exact N. rewrite Hio.
+    unfold retired, retiredb, getb. cbn [after_load io turn bufs]. rewrite nth_set_nth_neq by exact N. rewrite Hio.
     replace (Nat.eqb (turn _ s) j) with false by (symmetry; apply Nat.eqb_neq; exact N).
     destruct ls as [|[|[|]]]; cbn [andb]; rewrite ?orb_false_r; reflexivity.
 Qed.
@@ -195,19 +193,19 @@ Proof.
   rewrite Hio in Hbu. cbn [bu_ok] in Hbu. destruct Hbu as (x & y & Hbu).
   assert (Hdo : d_over d = true) by (rewrite Hov; exact Hovt).
   destruct (M_io_load_over c T input0 pad (wpcs _ s) d g _ Hdw Lw Hbu Hdo) as (n & Hn & Hcs). rewrite <- Hio in Hcs.
-  assert (Hn' : bnd n) by exact I.
+  assert (Hn' : (n <= 200)%nat) by lia.
   pose proof Hst as Hsio. unfold step_io in Hst. rewrite Hio, Hovt in Hst. injection Hst as <- <-.
   apply (sim_io_pack c T pad input0 Hc HT Hbytes s d g _ _ n _ g (I_SetReady 2) (wpcs _ s) _ Hdr Htg Hre Hsio Hn' Hcs); try reflexivity.
   - rewrite nev_one by lia. rewrite Htu. replace (Z.of_nat (turn _ s) <? 0)%Z with false by (symmetry; apply Z.ltb_ge; lia). rewrite Nat2Z.id. reflexivity.
-  - unfold RefineE2EfRel.drel. cbn [set_io bufs wpcs wsts turn over live crashed output input with_over d_bufs d_sm d_turn d_over d_live d_out d_pos d_eof].
+  - unfold RefineConcRel.drel. cbn [set_io bufs wpcs wsts turn over live crashed output input with_over d_bufs d_ns d_turn d_over d_live d_out d_pos d_eof].
     split; [exact Lb|]. split; [exact Lw|]. split; [exact Lx|]. split; [exact Ldb|]. split; [exact Ldn|]. split; [exact Htu|].
     split; [exact HtT|]. split; [symmetry; exact Hovt|]. split; [exact Hlv|]. split; [exact HlT|]. split; [exact Hcr|]. split; [exact Hout|].
     split; [|split; [exact Hws|exact Hin]].
     intros j Hj. rewrite getb_set_io. destruct (Nat.eq_dec (turn _ s) j) as [<-|N].
-    + replace (retired _ (turn _ s)) with true by (unfold retired; cbn [set_io io turn]; rewrite Nat.eqb_refl; cbn [andb]; rewrite orb_true_r; reflexivity).
+    + replace (retired _ (turn _ s)) with true by (unfold retired, retiredb; cbn [set_io io turn]; rewrite Nat.eqb_refl; cbn [andb]; rewrite orb_true_r; reflexivity).
       eapply brel_true. apply Hbuf. exact Hj.
     + replace (retired _ j) with (retired s j); [apply Hbuf; exact Hj|].
-      unfold retired. cbn [set_io io turn]. rewrite getb_set_io, Hio.
+      unfold retired, retiredb. cbn [set_io io turn]. rewrite getb_set_io, Hio.
       replace (Nat.eqb (turn _ s) j) with false by (symmetry; apply Nat.eqb_neq; exact N). cbn [andb]. reflexivity.
   - apply (tg_ok_io T s g); [exact Htg|reflexivity|exact Hrb|exact I].
 Qed.
@@ -257,7 +255,7 @@ Proof.
   rewrite Hio in Hbu. cbn [bu_ok] in Hbu. destruct Hbu as (x & y & Hbu).
   destruct (Hin Hovf) as (Heof & Hpos & Hinp).
   assert (Hdo : d_over d = false) by (rewrite Hov; exact Hovf).
-  destruct (reach_io_own c T true (skipn Lpos0 input0) Hc (proj1 HT) (bskip Lpos0 input0 Hbytes) LS Ltr Lev LdS (Lsig0 T) (sig0_length T) s Hre) as [Hown|Hown]; [rewrite Hio; exact I| |].
+  destruct (reach_io_own c T true input0 Hc (proj1 HT) Hbytes s Hre) as [Hown|Hown]; [rewrite Hio; exact I| |].
   all: pose proof (Hbuf _ HtT) as (Est & Efin & Elen & Eby & _);
     set (b := getb _ s (turn _ s)) in *; set (mb := nth (turn _ s) (d_bufs d) mb0) in *;
     set (R := skipn (d_pos d) input0) in *; set (gotN := firstn (16 * c) R);
@@ -274,7 +272,7 @@ Proof.
     rewrite Hsio in Hst; injection Hst as <- <-;
     assert (Ek' : List.length (firstn (16 * c) (skipn (d_pos d) (map Z.of_N input0))) = (16 * c)%nat) by (rewrite Egot, map_length; exact Ek);
     destruct (M_io_load_enc_full c T input0 (wpcs _ s) d g x y Hdw Lw Hbu Hdo Heof Ek') as (n & Hn & Hcs); rewrite <- Hio in Hcs;
-    assert (Hn' : bnd n) by exact I;
+    assert (Hn' : (n <= 200)%nat) by lia;
     rewrite Egot, map_length in Hcs; rewrite Htu in Hcs; fold mb in Hcs;
     (apply (sim_io_pack c T true input0 Hc HT Hbytes s d g _ _ n _ _ (I_SetReady 0) (wpcs _ s) _ Hdr Htg Hre Hsio Hn' Hcs);
      [ reflexivity | reflexivity
@@ -298,7 +296,7 @@ Proof.
     rewrite Hsio in Hst; injection Hst as <- <-;
     assert (Ek' : (List.length (firstn (16 * c) (skipn (d_pos d) (map Z.of_N input0))) < 16 * c)%nat) by (rewrite Egot, map_length; fold k; lia);
     destruct (M_io_load_enc_final c T input0 (wpcs _ s) d g x y Hdw Lw Hbu Hdo Heof Ek') as (n & Hn & Hcs); rewrite <- Hio in Hcs;
-    assert (Hn' : bnd n) by exact I;
+    assert (Hn' : (n <= 200)%nat) by lia;
     rewrite Egot, map_length in Hcs; fold k in Hcs; rewrite Htu in Hcs; fold mb in Hcs;
     (apply (sim_io_pack c T true input0 Hc HT Hbytes s d g _ _ n _ _ (I_SetReady 1) (wpcs _ s) _ Hdr Htg Hre Hsio Hn' Hcs);
      [ reflexivity | reflexivity
@@ -356,7 +354,7 @@ Proof.
   rewrite Hio in Hbu. cbn [bu_ok] in Hbu. destruct Hbu as (x & y & Hbu).
   destruct (Hin Hovf) as (Heof & Hpos & Hinp).
   assert (Hdo : d_over d = false) by (rewrite Hov; exact Hovf).
-  pose proof (reach_load c T false (skipn Lpos0 input0) Hc (proj1 HT) (bskip Lpos0 input0 Hbytes) LS Ltr Lev LdS (Lsig0 T) (sig0_length T) s Hre Hio) as Hnt.
+  pose proof (reach_load c T false input0 Hc (proj1 HT) Hbytes s Hre Hio) as Hnt.
   pose proof (Hbuf _ HtT) as (Est & Efin & Elen & Eby & _).
   set (b := getb _ s (turn _ s)) in *. set (mb := nth (turn _ s) (d_bufs d) mb0) in *.
   set (R := skipn (d_pos d) input0) in *. set (gotN := firstn (16 * c) R).
@@ -395,7 +393,7 @@ Proof.
       { rewrite Hgl, Hnth. rewrite Ek. rewrite (skipn_nil_nth_error _ input0 (d_pos d + 16 * c)) by (symmetry; exact Hrest). reflexivity. }
       assert (Ek' : List.length (firstn (16 * c) (skipn (d_pos d) (map Z.of_N input0))) = (16 * c)%nat) by (rewrite Hgl; exact Ek).
       destruct (M_io_load_dec_end c T input0 (wpcs _ s) d g x y Hdw Lw Hbu Hdo Heof Ek' Hnone) as (n & Hn & Hcs). rewrite <- Hio in Hcs.
-      assert (Hn' : bnd n) by exact I.
+      assert (Hn' : (n <= 200)%nat) by lia.
       rewrite Egot in Hcs. rewrite map_length in Hcs. fold k in Hcs. rewrite Htu in Hcs. fold mb in Hcs.
       apply (sim_io_pack c T false input0 Hc HT Hbytes s d g _ _ n _ _ (I_SetReady 1) (wpcs _ s) _ Hdr Htg Hre Hsio Hn' Hcs).
       * reflexivity.
@@ -412,7 +410,7 @@ Proof.
       { rewrite Hgl, Hnth. rewrite Ek. rewrite (skipn_cons_nth_error _ input0 (d_pos d + 16 * c) v r') by (symmetry; exact Hrest). reflexivity. }
       assert (Ek' : List.length (firstn (16 * c) (skipn (d_pos d) (map Z.of_N input0))) = (16 * c)%nat) by (rewrite Hgl; exact Ek).
       destruct (M_io_load_dec_more c T input0 (wpcs _ s) d g x y (Z.of_N v) Hdw Lw Hbu Hdo Heof Ek' Hsome ltac:(lia)) as (n & Hn & Hcs). rewrite <- Hio in Hcs.
-      assert (Hn' : bnd n) by exact I.
+      assert (Hn' : (n <= 200)%nat) by lia.
       rewrite Egot in Hcs. rewrite map_length in Hcs. fold k in Hcs. rewrite Htu in Hcs. fold mb in Hcs.
       apply (sim_io_pack c T false input0 Hc HT Hbytes s d g _ _ n _ _ (I_SetReady 0) (wpcs _ s) _ Hdr Htg Hre Hsio Hn' Hcs).
       * reflexivity.
@@ -434,7 +432,7 @@ Proof.
       rewrite Hsio in Hst. injection Hst as <- <-.
       assert (Ek16 : (List.length (firstn (16 * c) (skipn (d_pos d) (map Z.of_N input0))) < 16)%nat) by (rewrite Hgl; exact Hk16).
       destruct (M_io_load_dec_nodata c T input0 (wpcs _ s) d g x y Hdw Lw Hbu Hdo Heof Ek16) as (n & Hn & Hcs). rewrite <- Hio in Hcs.
-      assert (Hn' : bnd n) by exact I.
+      assert (Hn' : (n <= 200)%nat) by lia.
       rewrite Egot in Hcs. rewrite map_length in Hcs. fold k in Hcs. rewrite Htu in Hcs. fold mb in Hcs.
       apply (sim_io_pack c T false input0 Hc HT Hbytes s d g _ _ n _ _ (I_SetReady 2) (wpcs _ s) _ Hdr Htg Hre Hsio Hn' Hcs).
       * reflexivity.
@@ -442,7 +440,7 @@ Proof.
       * rewrite nev_one by lia. replace (Z.of_nat (turn _ s) <? 0)%Z with false by (symmetry; apply Z.ltb_ge; lia). rewrite Nat2Z.id. reflexivity.
       * apply (drel_load false s d 2 _ _ _ _ true _ Hdr Hio); [|discriminate].
         replace (retired _ (turn _ s)) with true
-          by (unfold retired; cbn [after_load io turn]; rewrite Nat.eqb_refl; cbn [andb]; rewrite orb_true_r; reflexivity).
+          by (unfold retired, retiredb; cbn [after_load io turn]; rewrite Nat.eqb_refl; cbn [andb]; rewrite orb_true_r; reflexivity).
         unfold brel, loaded. cbn [mb_st mb_fin mb_cells mb_tot mb_now]. rewrite map_length. fold k.
         split; [exact Est|]. split; [exact Efin|]. split; [rewrite upd_range_length; exact Elen|].
         split; [apply upd0_bytes; [apply bytes_byteZ; exact HbG | exact Eby | rewrite map_length, Elen; fold k; lia]|].
@@ -457,7 +455,7 @@ Proof.
       assert (Hk16 : (16 <= k)%nat) by (destruct (Nat.lt_ge_cases k 16) as [L|L]; [apply Nat.div_small in L; lia|exact L]).
       assert (Ek16 : (16 <= List.length (firstn (16 * c) (skipn (d_pos d) (map Z.of_N input0))))%nat) by (rewrite Hgl; exact Hk16).
       destruct (M_io_load_dec_short c T input0 (wpcs _ s) d g x y Hdw Lw Hbu Hdo Heof Ek' Ek16) as (n & Hn & Hcs). rewrite <- Hio in Hcs.
-      assert (Hn' : bnd n) by exact I.
+      assert (Hn' : (n <= 200)%nat) by lia.
       rewrite Egot in Hcs. rewrite map_length in Hcs. fold k in Hcs. rewrite Htu in Hcs. fold mb in Hcs.
       apply (sim_io_pack c T false input0 Hc HT Hbytes s d g _ _ n _ _ (I_SetReady 1) (wpcs _ s) _ Hdr Htg Hre Hsio Hn' Hcs).
       * reflexivity.
